@@ -19,8 +19,9 @@ COMPONENTS = sessioncheck.COMPONENTS
 TECHNIQUE = ("fault grid enumerated (invalid settings are the faults) + SESSION seeded histories with "
              "restart (save, drop memory, reload) as the crash; cardinality monitors after every op")
 LEVEL_TEXT = ("The finite settings grid the quantifier asks for is enumerated completely (every cell: "
-              "normal form or ValueError with the previous setting kept; warning reported iff the "
-              "count is outside the range), then seeded editing histories change the child counts "
+              "normal form or ValueError with the previous setting kept, a clearly valid pair accepted "
+              "and stored as given; warning reported iff the count is outside the range, per object and "
+              "in one validation of each whole tree), then seeded editing histories change the child counts "
               "through every route using only operations nothing but a cardinality could refuse, "
               "interleaved with failed re-assignments and restarts through the three file formats.")
 LEVEL_NOTE = ("bool members are not generated (True is an int in Python; the property speaks of "
